@@ -64,6 +64,25 @@ class C01(PropBase):
         k = 1 if tier == 'quick' else 15
         strings = self.gen_strings(rng, ctx, 2500 * k, 2000 * k, 500 * k)
         out = [Case('obs', [['s', s]], stream) for stream, s in strings if '?' not in s]
+        # typing is a function of the string alone: a string that several templates accept, built plainly after (and before) the
+        # same string was built with another type forced, handed over as a Sid object and copied - in one process
+        v = gen.vocab_from_ctx(ctx)
+        seen = set()
+        for t in v.order:
+            for _ in range(60 * k):
+                s = v.sid(t, rng, search_p=rng.choice([0, 0.5, 0.9]))
+                if s in seen or any(ch in s for ch in ':?\n'):
+                    continue
+                acc = [tt for tt in v.order if natural(v, s, forced=tt)]
+                if len(acc) < 2:
+                    continue
+                seen.add(s)
+                t2 = rng.choice(acc[1:])
+                steps = [['copy', [['s', t2 + ':' + s]]], ['sid', [['x', [s, t2, natural(v, s, forced=t2)[1]]]]], ['obs', [['s', s]]],
+                         ['copy', [['s', acc[0] + ':' + s]]], ['obs', [['s', t2 + ':' + s]]], ['obs', [['s', s]]]]
+                if rng.random() < 0.5:
+                    steps = [['obs', [['s', s]]]] + steps
+                out.append(Case('seq', steps, 'history', {'s': s}))
         if tier != 'quick':
             # exhaustive: every string of <= 4 segments over a 9-word alphabet, with and without prefixes
             v = gen.vocab_from_ctx(ctx)
@@ -83,6 +102,15 @@ class C01(PropBase):
             return 'derived observations differ (uri, basetype, keytype, is_search, is_leaf, as_query)'
         return None
     def oracle(self, case, impl, ctx):
+        if case.op == 'seq':
+            v = gen.vocab_from_ctx(ctx)
+            for (op, a), r in zip(case.args, impl):
+                if op == 'obs':
+                    s = a[0][1]
+                    exp = expected_obs(v, s)
+                    if not (isinstance(r, list) and len(r) > 2 and (r[0], r[1], r[2]) == (exp[0], exp[1], exp[2])):
+                        return 'in the history %r: Sid(%r) gives %r, expected %r' % ([x[0] + ':' + str(x[1][0][1]) for x in case.args], s, r[:3] if isinstance(r, list) else r, exp)
+            return None
         s = case.args[0][1]
         if '?' in s:
             return None
@@ -95,10 +123,14 @@ class C01(PropBase):
             return 'Sid(%r): expected (sid, bool, len) = %r, got %r' % (s, exp, got)
         return None
     def nontrivial(self, case, impl):
+        if case.op == 'seq':
+            return case.args
         if case.stream in ('structured', 'malformed', 'exhaustive', 'forced') or (isinstance(impl, list) and impl and isinstance(impl[0], list) and impl[0][1]):
             return case.args
         return None
     def histogram_key(self, case, impl):
+        if case.op == 'seq':
+            return 'history'
         try:
             ty = impl[0][1] or 'untyped'
         except Exception:
